@@ -75,10 +75,11 @@ KNOBS = [
     dict(tree_cascade="all", m2m_set=False),
     dict(tree_cascade="default", m2m_set=True),
 ]
-PREFIX_W = {"new": 45, "flush": 4, "commit": 2, "del": 3, "exp": 0, "readd": 0, "rowswitch": 0, "cycdel": 1}
+PREFIX_W = {"new": 45, "flush": 4, "commit": 2, "del": 3, "exp": 0, "readd": 0, "rowswitch": 0, "cycdel": 1, "tnew": 6, "add": 4}
 TAIL_W = {"new": 22, "set": 14, "m2o": 12, "app": 8, "rem": 8, "repl": 3, "clr": 2, "pop": 2, "del": 16, "cycdel": 0,
           "exp": 0, "readd": 0, "merge": 0, "rowswitch": 0, "pk": 0, "flush": 0, "commit": 0, "rollback": 0,
-          "nest": 0, "spc": 0, "spr": 0, "close": 0, "expire": 0, "expall": 0, "refresh": 0, "get": 0, "touch": 3}
+          "nest": 0, "spc": 0, "spr": 0, "close": 0, "expire": 0, "expall": 0, "refresh": 0, "get": 0, "touch": 3,
+          "tnew": 0, "add": 0, "undel": 3}
 KINDS = ("integrity", "operational-after", "runtime")
 DROPPED = "collection-member-dropped-from-session-not-inserted"   # judged by C30 only
 
@@ -115,6 +116,8 @@ def generate(ctx, R, zoo, tpl, rng, fams, nested):
             prefix.append(["commit"])
             rig.session.autoflush = False
             g2 = R.Gen(rig, rng, fams, TAIL_W)
+            g2.use_pool = False   # an object that enters the session in the failed attempt keeps what
+            #                       that attempt did to it in memory; such tails cannot be re-run as they are
             g2.seq = g1.seq + 100
             # primary-key switches that are flushed successfully *before* the flush that
             # will fail (op 'pk' flushes at once); they head the tail and are redone by the rerun
